@@ -458,6 +458,8 @@ def run_scenario(scenario, _unused):
                 ffcx.options.get_options()
             elif what == "scalar":
                 ffcx.options.get_options({"scalar_type": op[2]})
+            elif what == "loglevel":
+                logging.getLogger("ffcx" if op[2] == "ffcx" else None).setLevel(op[3])
         elif kind == "nprint":
             # numpy's print options are process-global state that earlier code may have changed
             if op[1] == "low":
